@@ -138,6 +138,10 @@ def build(node, env=None, path='r'):
     if op == 'boom':
         return done(ds.map(env.fn(path, functools.partial(progs.f_boom, node['m'], node['r'], node['exc'],
                                                           node['fn']))))
+    if op == 'boomset':
+        return done(ds.map(env.fn(path, functools.partial(progs.f_boomset, node['fail'], node['fn']))))
+    if op == 'predraise':
+        return done(ds.map(env.fn(path, functools.partial(progs.f_predraise, node['m'], node['r']))))
     if op == 'frag':
         return done(ds.map(env.fn(path, progs.f_frag)))
     if op == 'batch_map':
